@@ -3,10 +3,11 @@ From V Require Export lib.Verdict C11.Model.
 Open Scope string_scope.
 
 Inductive case :=
-(* initProxyMetadata (ParseServiceNodeWithMetadata + GetProxyConfigNamespace) then
-   DiscoveryServer.authorize on the fresh proxy: mns = Metadata.Namespace, dns = DNS domain of the node id,
-   csa = Metadata.ServiceAccount *)
-| Ident (id : N) (enable : bool) (mns dns csa : string) (ids : option (list string)) (observed : auth_result)
+(* the REAL DiscoveryServer.initConnection on a fake discovery server, for a first request carrying
+   node id [node] and metadata namespace [mns] / service account [csa], on a stream whose credential
+   proved [ids]: observed = error class, or the ConfigNamespace and VerifiedIdentity of the proxy the
+   connection ends up with *)
+| Ident (id : N) (enable : bool) (node mns csa : string) (ids : option (list string)) (observed : conn_result)
 (* credentials.ParseResourceName *)
 | Parse (id : N) (rn pns pcl ccl : string) (observed : option sres)
 (* parseResources + filterAuthorizedResources with the controller of the proxy's cluster:
@@ -34,6 +35,12 @@ Definition auth_eqb (a b : auth_result) : bool :=
   match a, b with
   | AuthDenied, AuthDenied => true
   | AuthAccepted x, AuthAccepted y => option_eqb identity_eqb x y
+  | _, _ => false
+  end.
+Definition conn_eqb (a b : conn_result) : bool :=
+  match a, b with
+  | ConnInvalid, ConnInvalid | ConnDenied, ConnDenied => true
+  | ConnAccepted c x, ConnAccepted d y => String.eqb c d && option_eqb identity_eqb x y
   | _, _ => false
   end.
 Definition sres_eqb (a b : sres) : bool :=
@@ -69,7 +76,7 @@ Definition proxy_auth (w : world) (p : proxy) : bool :=
 (* ---- correspondence: the model predicts the observation *)
 Definition model_ok (c : case) : bool :=
   match c with
-  | Ident _ en mns dns csa ids o => auth_eqb (authorize en (config_namespace mns dns) csa ids) o
+  | Ident _ en node mns csa ids o => conn_eqb (init_connection en node mns csa ids) o
   | Parse _ rn pns pcl ccl o => option_eqb sres_eqb (parse_resource_name rn pns pcl ccl) o
   | Filter _ w p names parsed passed =>
       let rs := parse_resources names (proxy_ns p) (p_cluster p) (config_cluster w) in
@@ -120,12 +127,18 @@ Definition claimed_ns (mns dns : string) : string :=
     end
   else mns.
 
-Definition ident_spec (en : bool) (cns csa : string) (ids : option (list string)) (o : auth_result) : bool :=
+(* the last "~"-separated part of a node id *)
+Definition last_part (node : string) : string := List.last (split_on tilde node) "".
+
+(* [cns] = the namespace the node claims; the connection must end up as a proxy of exactly that
+   namespace, and with a verified identity only one that the credential proves and that matches *)
+Definition ident_spec (en : bool) (cns csa : string) (ids : option (list string)) (o : conn_result) : bool :=
   match o with
-  | AuthDenied => true
-  | AuthAccepted None => match ids with None => true | Some _ => negb en end
-  | AuthAccepted (Some v) =>
-      en && (String.eqb cns "" || String.eqb (id_ns v) cns) && (String.eqb csa "" || String.eqb (id_sa v) csa)
+  | ConnInvalid | ConnDenied => true
+  | ConnAccepted c None => String.eqb c cns && match ids with None => true | Some _ => negb en end
+  | ConnAccepted c (Some v) =>
+      String.eqb c cns &&
+      en && (String.eqb c "" || String.eqb (id_ns v) c) && (String.eqb csa "" || String.eqb (id_sa v) csa)
       && match ids with
          | Some l => existsb (fun raw => String.eqb raw ("spiffe://" ++ id_td v ++ "/ns/" ++ id_ns v ++ "/sa/" ++ id_sa v)) l
          | None => false
@@ -147,7 +160,7 @@ Definition passed_spec (w : world) (p : proxy) (sr : sres) : bool :=
 
 Definition prop_ok (c : case) : bool :=
   match c with
-  | Ident _ en mns dns csa ids o => ident_spec en (claimed_ns mns dns) csa ids o
+  | Ident _ en node mns csa ids o => ident_spec en (claimed_ns mns (last_part node)) csa ids o
   | Parse _ rn pns pcl ccl o => match o with Some sr => parse_spec rn pns pcl ccl sr | None => true end
   | Filter _ w p names parsed passed => forallb (passed_spec w p) passed
   | Scen _ w ops obs fresh _ =>
